@@ -217,10 +217,13 @@ func c20Check(c C20Case) (r evid.Result) {
 
 // The 13 symbols named by the property plus a non-ASCII decimal digit (a multi-byte character
 // of another Unicode class than the letters é / 世).
-var c20Alphabet = []string{"a", "Z", "0", "9", "_", ".", "-", "/", " ", "é", "世", "\xff", "\xc3", "٣"}
+// Letters and digits are the ends of their ranges (a, z, A, Z, 0, 9): a range test that is off by one
+// at either end shows.
+var c20Alphabet = []string{"a", "z", "A", "Z", "0", "9", "_", ".", "-", "/", " ", "é", "世", "\xff", "\xc3", "٣"}
 
 func c20GenKey(t *rapid.T, maxLen int, validUTF8 bool) string {
-	extra := []string{"b", "q", "7", ":", "=", "\"", "\\", "{", "\x00", "\n", " ", "𝛑", "\xe4\xb8", "\x80"}
+	// ... and the ASCII neighbours of those ranges (@ [ ` { / :)
+	extra := []string{"b", "q", "7", ":", "=", "\"", "\\", "{", "\x00", "\n", " ", "𝛑", "\xe4\xb8", "\x80", "@", "[", "`", "m", "M", "5"}
 	n := rapid.IntRange(1, maxLen).Draw(t, "n")
 	var sb strings.Builder
 	for i := 0; i < n; i++ {
@@ -308,7 +311,7 @@ func c20Gen(t *rapid.T) C20Case {
 func TestC20(t *testing.T) {
 	col := evid.NewCollector("C20")
 	if !replaying() {
-		// Exhaustive part: every string of length 1..maxLen over the 13-symbol alphabet.
+		// Exhaustive part: every string of length 1..maxLen over the alphabet.
 		maxLen := envInt("VERIF_C20_MAXLEN", 5)
 		var (
 			total, nontrivial int
@@ -345,7 +348,7 @@ func TestC20(t *testing.T) {
 		col.AddBulk(total, nontrivial, "exhaustive-key")
 		col.SetExtra("exhaustive_strings", total)
 		col.SetExtra("exhaustive_max_len", maxLen)
-		col.SetExtra("exhaustive_alphabet", "a Z 0 9 _ . - / space é 世 0xFF 0xC3 ٣(U+0663)")
+		col.SetExtra("exhaustive_alphabet", "a z A Z 0 9 _ . - / space é 世 0xFF 0xC3 ٣(U+0663)")
 	}
 	evid.RunWith(t, col, c20Gen, c20Check)
 }
